@@ -341,6 +341,9 @@ def plan(ctx):
             variants.append(dict(lat=la, winter=True))
             variants.append(dict(lat=la))
         variants += [dict(yml=True), dict(yml=False)]
+        # an effective rooting depth overridden BELOW the parameter file's value: the root limit round(WURZMAX*WUMAXPF/11) that binds is
+        # the overridden one (seeded C09-17: a limit derived by the reader and not refreshed by the override)
+        variants += [dict(override="c_WUMAXPF=5"), dict(override="c_WUMAXPF=3 c_VELOC=0.9")]
         variants += [dict(override="c_MAXAMAX=40 c_WUMAXPF=14"), dict(override="c_TSUM_2=150 c_TSUM_3=200"),
                      dict(override="c_MINTMP=8 c_VELOC=0.9 c_INITCONCNBIOM=3"), dict(override="c_LAIFKT_2=0.004 c_DRYSWELL_3=0.5 c_KC_2=1.3")]
         autos = ["AutoSowingHarvest", "AutoHarvest", "AutoIrrigation", "AutoFertilization"]
